@@ -1,0 +1,13 @@
+//go:build verif
+
+package uePolicyContainer
+
+// VerifState exposes the allocator's hidden state to the runtime monitors in
+// /verif (build tag "verif" only): bounds, scan offset and the used offsets.
+func (idGenerator *IDGenerator) VerifState() (minValue, maxValue, offset int64, used []int64) {
+	used = make([]int64, 0, len(idGenerator.usedMap))
+	for k := range idGenerator.usedMap {
+		used = append(used, k)
+	}
+	return idGenerator.minValue, idGenerator.maxValue, idGenerator.offset, used
+}
